@@ -169,7 +169,8 @@ def run(tape, prop, tier):
             j = st["jid"]
             b = jbeh[row % J]
             clock = d.now() if d.now_available else None
-            jobs[j] = dict(when=t(when_s), sched_clock=clock, origin=origin, runs=0, sched_seq=st["seq"], boom=b["boom"])
+            jobs[j] = dict(when=t(when_s), sched_clock=clock, origin=origin, runs=0, sched_seq=st["seq"], boom=b["boom"],
+                           expected=1)
 
             async def job():
                 jobs[j]["runs"] += 1
@@ -189,13 +190,30 @@ def run(tape, prop, tier):
                         res.probes["job_raised_cancelled_error"] += 1
                         raise asyncio.CancelledError()
                     raise RuntimeError("job boom")
-            # any callable returning an awaitable is a legal job: plain coroutine functions, partials, callable objects
-            if j % 3 == 1:
+            # any callable returning an awaitable is a legal job: plain coroutine functions, partials, callable objects -
+            # and a plain function may fail before it has anything to return
+            if b["boom"] and not b["sleeps"] and not b["spawn"] and not b["boom_cancelled"] and j % 2 == 0:
+                def job_sync():
+                    jobs[j]["runs"] += 1
+                    rec("job_enter", j, d.now())
+                    rec("job_exit", j, d.now())
+                    res.probes["job_raised"] += 1
+                    res.probes["job_raised_synchronously"] += 1
+                    res.faults["job_exception"] += 1
+                    raise KeyError("job boom before there is anything to await")
+                d.schedule(t(when_s), job_sync)
+            elif j % 3 == 1:
                 d.schedule(t(when_s), functools.partial(_call_with, job))
             elif j % 3 == 2:
                 d.schedule(t(when_s), CallableObject(job))
             else:
                 d.schedule(t(when_s), job)
+                if row % 5 == 4 and not b["spawn"]:
+                    # the very same callable scheduled once more for the very same instant (a shared "rebalance" that two
+                    # handlers of one instant both ask for): scheduled twice, it runs twice
+                    d.schedule(t(when_s), job)
+                    jobs[j]["expected"] = 2
+                    res.probes["same_job_scheduled_twice_for_one_instant"] += 1
 
         def mk_handler(hid, kind):
             async def h(ev):
@@ -426,11 +444,11 @@ def run(tape, prop, tier):
     done = False
     for j, info in jobs.items():
         must = info["sched_seq"] <= last_event_exit
-        if info["runs"] > 1:
+        if info["runs"] > info["expected"]:
             V("C13", "job-ran-twice", f"job {j} (t={info['when'].time()}) ran {info['runs']} times")
             done = True
             break
-        if must and info["runs"] != 1 and outcome["r"] == "returned":
+        if must and info["runs"] != info["expected"] and outcome["r"] == "returned":
             V("C13", "job-never-ran",
               f"job {j} scheduled for {info['when']} from {info['origin']} never ran; all jobs (time, runs, origin): "
               f"{[(str(v['when'].time()), v['runs'], v['origin']) for v in jobs.values()]}; last event {last_event_time}")
